@@ -5,8 +5,8 @@ from .. import lib, pdbtext as pt
 
 PID = "C09"
 TIERS = {
-    "quick":    dict(mc="MC_PdbText_4.cfg", tables=240, split=40),
-    "thorough": dict(mc="MC_PdbText_5.cfg", tables=18000, split=2500),
+    "quick":    dict(mc="MC_PdbText_4.cfg", tables=240, split=40, batch=100000),
+    "thorough": dict(mc="MC_PdbText_5.cfg", tables=8000, split=1000, batch=4000),
 }
 LEVEL = "model_checking"
 
@@ -54,17 +54,26 @@ def run(tier):
         K = pt.constants(sc)
         pt.CONSTS = K
         tables = pt.gen_tables(t["tables"], lib.seed(), K)
-        multi = [x for x in tables if len({a["model"] for a in x["atoms"]}) > 1]
-        cases = _cases(tables, pt.PATHS, lib.seed()) + _cases(multi[:t["split"]], pt.SPLITS, lib.seed())
-        rec = lib.pmap(pt.record, cases)
+        multi = [x for x in tables if len({a["model"] for a in x["atoms"]}) > 1][:t["split"]]
+        cases = _cases(tables, pt.PATHS, lib.seed()) + _cases(multi, pt.SPLITS, lib.seed())
+        texts = lines = 0
+        samples = []
         with ThreadPoolExecutor(max_workers=1) as bg:         # model checks run beside the trace validation
-            fut = bg.submit(_model_checks, t, sc)
-            res = lib.trace_validate("Trace_PdbText", "Trace_PdbText.cfg", rec, sc,
-                                     chunks=max(1, min(lib.NCPU, len(rec) // 130)))
+            fut = None
+            for b in range(0, len(cases), t["batch"]):        # bounded memory: record + validate batch by batch
+                rec = lib.pmap(pt.record, cases[b:b + t["batch"]])
+                if fut is None:                               # (started after the first fork pool is done)
+                    fut = bg.submit(_model_checks, t, sc)
+                res = lib.trace_validate("Trace_PdbText", "Trace_PdbText.cfg", rec, sc,
+                                         chunks=max(1, min(lib.NCPU, len(rec) // 130)))
+                rep.add_trace(res, {c["id"]: c for c in rec}, "C09")
+                texts += sum(len(c["texts"]) for c in rec)
+                lines += sum(len(x["lines"]) for c in rec for x in c["texts"])
+                if b == 0:
+                    samples = [_brief(c) for c in rec[:2]] + [_brief(c) for c in rec[-1:]]
             mcs = fut.result()
         for spec, r in zip(MC_RUNS, mcs):
             rep.add_mc(r, spec[3], negative_control=spec[2], min_actions=() if spec[2] else ACTIONS)
-        rep.add_trace(res, {c["id"]: c for c in rec}, "C09")
 
         cov = rep.cov
         cp, tp = pt.pair_coverage(tables, K)
@@ -73,16 +82,16 @@ def run(tier):
                        "(Gen_PdbText: 14 atom-name/element kinds incl. primes, leading digits, 4-character names and 2-letter "
                        "elements; charges; alt-locs; insertion codes; residue numbers -999..9999; coordinates "
                        "-999.999..9999.999; 1-3 models; 1-3 chains) x 4 library paths, plus splitter.main on "
-                       f"{min(len(multi), t['split'])} multi-model tables x 4 format combinations. Non-trivial = distinct table "
+                       f"{len(multi)} multi-model tables x 4 format combinations. Non-trivial = distinct table "
                        "with >= 2 chains or >= 2 models AND at least one hard value shape (4-character or digit-leading name, "
                        "2-letter element, charge, alt-loc, insertion code, negative number or coordinate, coordinate >= 1000).")
         cov["distinct_nontrivial"] = len({json.dumps(x["atoms"], sort_keys=True) for x in tables
                                           if pt.is_nontrivial(x["atoms"])})
         cov["value_shape_pairs_covered"] = [cp, tp]
-        cov["pdb_texts_checked"] = sum(len(c["texts"]) for c in rec)
-        cov["pdb_lines_checked"] = sum(len(x["lines"]) for c in rec for x in c["texts"])
-        cov["samples"] = [_brief(c) for c in rec[:2]] + [_brief(c) for c in rec[-1:]]
-        if tier == "quick" and cp < tp:
+        cov["pdb_texts_checked"] = texts
+        cov["pdb_lines_checked"] = lines
+        cov["samples"] = samples
+        if cp < tp:
             raise lib.MachineryError(f"value-shape pair coverage incomplete: {cp}/{tp}")
         rep.assumptions += [
             "the harness's own PDB and mmCIF emitters are faithful (checked on every case by clause InputFaithful: the frame "
@@ -90,7 +99,7 @@ def run(tier):
             "projection of data frames to JSON (text as character lists, coordinates rounded to milli-units, occupancy/B to "
             "centi-units, NA as empty) is faithful",
             "only tables whose values fit the PDB field widths (incl. the TER serial) are generated; mmCIF layout is never "
-            "compared, only parsed values",
+            "compared, only parsed values; data frames are obtained by the real readers from emitted text, not built by hand",
         ]
     return rep.finish()
 
